@@ -162,6 +162,44 @@ def check_addressing(ctx, ss, case, phase, prev=None):
                 if [_k(x) for x in want] != [_k(x) for x in flat]:
                     ctx.fail('derived_indexer_wrong', dict(case=case, model=mname, var=vname, indexer=[repr(x) for x in flat][:12],
                                                            expected=[repr(x) for x in want][:12]), sig=sig)
+            if type(var.indexer).__name__ == 'RefFlatten':
+                # a flattened reverse link: for device d (in order) the devices of the referring group whose index field names
+                # d; recomputed here from those index fields (a multiset per device)
+                br = var.indexer.ref
+                pos_ = 0
+                for d, didx in enumerate(mdl.idx.v):
+                    want = []
+                    for m2 in ss.models.values():
+                        if m2.n == 0 or br.name not in (m2.group, m2.class_name):
+                            continue
+                        for ip in m2.idx_params.values():
+                            if ip.model in (mdl.class_name, mdl.group):
+                                want.extend(m2.idx.v[j] for j, x in enumerate(ip.v) if x is not None and _k(x) == _k(didx))
+                    got = flat[pos_:pos_ + len(want)]
+                    pos_ += len(want)
+                    if sorted(repr(_k(x)) for x in got) != sorted(repr(_k(x)) for x in want):
+                        ctx.fail('reverse_link_wrong', dict(case=case, model=mname, var=vname, device=repr(didx),
+                                                            linked=[repr(x) for x in got][:10], expected=[repr(x) for x in want][:10]), sig=sig)
+                    ctx.count('reverse_links_checked')
+                if pos_ != len(flat):
+                    ctx.fail('reverse_link_wrong', dict(case=case, model=mname, var=vname, linked_total=len(flat), expected_total=pos_), sig=sig)
+            if type(var.indexer).__name__ == 'BackRef' and len(iv) == mdl.n:
+                # a reverse link: element d lists the devices of the referring group whose index field names device d;
+                # recomputed here from those index fields (as a multiset per device)
+                br = var.indexer
+                for d, didx in enumerate(mdl.idx.v):
+                    want = []
+                    for m2 in ss.models.values():
+                        if m2.n == 0 or br.name not in (m2.group, m2.class_name):
+                            continue
+                        for ip in m2.idx_params.values():
+                            if ip.model in (mdl.class_name, mdl.group):
+                                want.extend(m2.idx.v[j] for j, x in enumerate(ip.v) if x is not None and _k(x) == _k(didx))
+                    got = list(iv[d]) if isinstance(iv[d], (list, np.ndarray)) else [iv[d]]
+                    if sorted(repr(_k(x)) for x in got) != sorted(repr(_k(x)) for x in want):
+                        ctx.fail('reverse_link_wrong', dict(case=case, model=mname, var=vname, device=repr(didx),
+                                                            linked=[repr(x) for x in got][:10], expected=[repr(x) for x in want][:10]), sig=sig)
+                    ctx.count('reverse_links_checked')
             if len(flat) != len(var.a):
                 ctx.fail('external_link_length', dict(case=case, model=mname, var=vname, n_index=len(flat), n_addr=len(var.a)), sig=sig)
             for k, ref in enumerate(flat):
@@ -294,6 +332,17 @@ def run_case(ctx, case):
                     rows[name] = [extra] + rows[name]
                     order[name] = [0] + [k + 1 for k in order[name]]
                     ctx.count('extra_unreferenced:' + name)
+        if case.get('blank_refs'):
+            # some devices do not name a centre of inertia / area-level device although their neighbours do
+            for name, rr in rows.items():
+                hit = [k for k, r in enumerate(rr) if r.get('coi') is not None]
+                if len(hit) >= 2:
+                    sel = [k for n_, k in enumerate(hit) if (case['perm_key'] >> (n_ % 5)) & 1] or hit[:1]
+                    if len(sel) == len(hit):
+                        sel = sel[:-1]
+                    for k in sel:
+                        rr[k]['coi'] = None
+                    ctx.count('blank_refs:' + name)
         morder = list(rows)
         if case['permute'] and case['perm_key'] % 2:
             # Bus and other referenced models may come later: add() does not need the targets to exist
@@ -370,7 +419,8 @@ def cases(draw, paths):
     coll = draw(st.lists(st.sampled_from(['GENROU', 'PQ', 'Line', 'EXDC2', 'TGOV1', 'PV', 'GENCLS', 'Shunt']), max_size=2, unique=True))
     return dict(source='stock', path=draw(st.sampled_from(paths)), rename=draw(st.sampled_from(['keep', 'flip', 'flip'])),
                 permute=draw(st.booleans()), perm_key=draw(st.integers(0, 50)),
-                collate=coll if draw(st.integers(0, 3)) == 0 else [], extra_unreferenced=draw(st.booleans()))
+                collate=coll if draw(st.integers(0, 3)) == 0 else [], extra_unreferenced=draw(st.booleans()),
+                blank_refs=draw(st.booleans()))
 
 
 def camp_addr(ctx):
@@ -393,6 +443,12 @@ def camp_addr(ctx):
                 ctx.current_case = case
                 ctx.count('anchor:unreferenced_first')
                 body(case)
+                for key in (1, 2, 5):
+                    case = dict(source='stock', path=pth, rename='keep', permute=False, perm_key=key, collate=[], extra_unreferenced=False,
+                                blank_refs=True)
+                    ctx.current_case = case
+                    ctx.count('anchor:partly_referenced')
+                    body(case)
                 break
     drive(ctx, cases(paths), body, 8 if quick else 120, name='addr', chunk=8, shrink=False,
           budget_s=150 if quick else 1500)
